@@ -71,6 +71,9 @@ func allInputs(seed uint64, ne int) []*Input {
 	for i, p := range per {
 		out = append(out, p...)
 		out = append(out, shapeInputs(dmodel.Dialects[i])...)
+		if dmodel.Dialects[i] != dmodel.SQLite { // SQLite's planner refuses AddSchema / DropSchema
+			out = append(out, rawInputs(dmodel.Dialects[i])...)
+		}
 	}
 	return out
 }
